@@ -66,6 +66,24 @@ def relations(mod):
                 op = type(n.ops[0]).__name__
                 if op in ('NotEq', 'Eq', 'NotIn', 'In'):
                     out.append((n.lineno, g, a.args[0], b, op, b.value.id))
+    # `number.endswith(gen(number[a:-k]))`: the check position is what the payload slice leaves out, number[-k:]
+    for n in ast.walk(fn.node):
+        if isinstance(n, ast.Call) and isinstance(n.func, ast.Attribute) and n.func.attr == 'endswith' and isinstance(n.func.value, ast.Name) \
+                and len(n.args) == 1 and isinstance(n.args[0], ast.Call) and len(n.args[0].args) == 1:
+            a = n.args[0]
+            name = a.func.attr if isinstance(a.func, ast.Attribute) else (a.func.id if isinstance(a.func, ast.Name) else None)
+            if not name or 'calc_check' not in name:
+                continue
+            var = n.func.value.id
+            e = a.args[0]
+            if isinstance(e, ast.Subscript) and isinstance(e.value, ast.Name) and e.value.id == var and isinstance(e.slice, ast.Slice) \
+                    and isinstance(e.slice.upper, ast.UnaryOp) and isinstance(e.slice.upper.op, ast.USub) and isinstance(e.slice.upper.operand, ast.Constant):
+                k = e.slice.upper.operand.value
+                from .c03 import resolve_callee
+                g = resolve_callee(fn, a.func)
+                if isinstance(g, types.FunctionType) and isinstance(k, int) and k > 0:
+                    pos = ast.parse('%s[-%d:]' % (var, k), mode='eval').body
+                    out.append((n.lineno, g, e, pos, 'NotEq', var + ':convention'))
     out.sort(key=lambda t: t[0])
     return fn, [t[1:] for t in out]
 
